@@ -130,7 +130,7 @@ func (s *ExpressionVisitor) EnterOC_NotExpression(ctx *parser.OC_NotExpressionCo
 func (s *ExpressionVisitor) ExitOC_NotExpression(ctx *parser.OC_NotExpressionContext) {
 	if len(ctx.AllNOT()) > 0 {
 		visitor := s.ctx.Exit().(*NegationVisitor)
-		s.Expression = visitor.Negation
+		s.Expression = nestNegations(visitor.Negation, len(ctx.AllNOT()))
 	}
 }
 
